@@ -310,6 +310,16 @@ theorem extracted_presets_match_model :
     `current_dir().unwrap()` is an environmental assumption (the hook's directory exists). -/
 theorem extracted_no_unguarded_unwrap : unguardedUnwraps = [] ∧ agentV1Panicky = 0 := by decide
 
+/-- every panic-capable expression (`unwrap`, `expect`, panic-family macros, asserts, index and slice
+    expressions) in the non-test code of the preset decoders (src/commands/checkpoint_agent/*.rs) is either
+    a string-literal index on a `serde_json::Value` (class 0: yields `Null`, never panics) or one whose guard
+    was reviewed (class 1: extract/preset_panic_sites_reviewed.json gives the reason per site). The table is
+    regenerated from the source on every run; a new unwrap / byte-index slice of a payload string in a
+    decoder (class 2) breaks this obligation and starts the failing-payload search of the check. This is a
+    statement about the inventory, not a proof that the decoders cannot panic (see DESIGN §8 C20 limits). -/
+theorem extracted_preset_panic_sites_reviewed :
+    presetPanicSites.all (fun s => s.2 == 0 || s.2 == 1) = true := by decide
+
 /-- **C20 exit_zero.** For every argument list, stdin content, preset decoder (any function
     returning `Ok`/`Err`), directory tree, allow-list and `checkpoint::run` outcome, the
     control-flow model of `handle_checkpoint` leaves the process with status 0, the status
@@ -564,6 +574,7 @@ end GitAi.Routing
 #print axioms GitAi.Routing.extracted_exits_cover_model
 #print axioms GitAi.Routing.extracted_presets_match_model
 #print axioms GitAi.Routing.extracted_no_unguarded_unwrap
+#print axioms GitAi.Routing.extracted_preset_panic_sites_reviewed
 #print axioms GitAi.Routing.exit_zero
 #print axioms GitAi.Routing.agentv1_total
 #print axioms GitAi.Routing.agentv1_scalars_rejected
